@@ -371,3 +371,23 @@ Definition ex_diamond : fsys :=
 Definition nrules (fs : fsys) (ns : list N) : nat :=
   match aget ns fs with Some f => length (grules f) | None => 0 end.
 Definition nrules_of (fs : fsys) (l : list (list N)) : nat := list_sum (map (nrules fs) l).
+
+(* ---------------------------------------------------------------- harmless import cycles *)
+(* every name written in a grammar file (rule references and [Class] links) *)
+Definition file_names (f : gfile) : list (list N) := flat_map (fun r => rrefs r ++ rcrefs r) (grules f).
+
+(* An import of a grammar that is still being loaded, (importer, imported), is harmless when no
+   unqualified name of the importer could be meant for the imported grammar: each such name is
+   defined by the importer itself, is a built-in, or is not defined by the imported grammar. *)
+Definition safe_back (fs : fsys) (p : list N * list N) : bool :=
+  match aget (fst p) fs with
+  | None => true
+  | Some f => forallb (fun n => has_dot n || defines fs (fst p) n || is_base n || negb (defines fs (snd p) n))
+                      (file_names f)
+  end.
+Definition safe (fs : fsys) (s : st) : bool := forallb (safe_back fs) (backs s).
+
+(* a harmless cycle: a imports b and itself; b imports a back but only uses its own rules and built-ins *)
+Definition ex_harmless : fsys :=
+  [ ([97], {| gimports := [[98]; [97]]; grules := [ex_rule [77] [[88]; [89]]; ex_rule [88] []] |});
+    ([98], {| gimports := [[97]]; grules := [ex_rule [89] [[89]; [73;78;84]]] |}) ]%N.
